@@ -593,7 +593,7 @@ func vScenarioC12(rc *runCtx) {
 		cfg.quiet = false
 		o.flags = cfg.flags()
 	}
-	o.cols = int32([]int{80, 40, 20, 6}[tp.Draw("c12.cols", 4)])
+	o.cols = int32([]int{80, 40, 20, 6, -1}[tp.Draw("c12.cols", 5)]) // -1: an embedding program that never told the width
 	// the attacked side may be one that reads its lines the Windows-console way
 	if !hugeBuf && o.relays == 0 && !cfg.tunnel && tp.Bool("c12.windows", 150) {
 		if tp.Bool("c12.winsrv", 500) {
@@ -632,6 +632,11 @@ func vScenarioC12(rc *runCtx) {
 		if dir == 3 {
 			l = x.up[0]
 		}
+	}
+	unknownWidth := o.cols < 0 && !hugeBuf && !leaderTail && dir < 2
+	if unknownWidth {
+		// the width of the terminal was never told: what the peer says about a pane is all the client has
+		dir, l = 1, x.down[0]
 	}
 	if leaderTail {
 		// the side that receives the file is the one attacked
@@ -674,6 +679,22 @@ func vScenarioC12(rc *runCtx) {
 				return np, true
 			}
 			return "", false
+		}
+		if unknownWidth && typ == "CFG" && fired < max && tp.Bool("c12.panewidth", 700) {
+			if raw, err := vDecode(payload); err == nil {
+				var m map[string]any
+				if json.Unmarshal(raw, &m) == nil && m != nil {
+					v := []string{"10001", "100000", "3000000", "2147483647", "-1", "4294967296"}[tp.Draw("c12.panewidthv", 6)]
+					m["tmux_pane_width"] = json.RawMessage(v)
+					delete(m, "quiet")
+					if js, err := json.Marshal(m); err == nil {
+						fired++
+						rc.fault("hostile-CFG-pane-width")
+						log = append(log, "CFG tmux_pane_width -> "+v+" (terminal width unknown)")
+						return vEncode(js), true
+					}
+				}
+			}
 		}
 		if dir >= 2 {
 			// a relay only reads the handshake lines
